@@ -1,3 +1,203 @@
-(* Props.C04 — placeholder being filled in (see Proofs/HeaderLineProofs.v). *)
-From Coq Require Import List NArith Bool.
-Require Import PyStr Regex Regexes HeaderLine.
+(* Props.C04 — header line grammar: parsing inverts formatting under any padding.
+   Statements only; the proofs are in Proofs/HeaderLineProofs.v (generic facts about which
+   split the backtracking matcher chooses: Proofs/RegexMatchFacts.v).  The vocabulary
+   (blanks, stripped, conf_mnem, conf_unit, conf_text, layout, clock_colons, ...) is
+   defined in Proofs/HeaderLineSpec.v from the property text.
+
+   Reading.  A line is laid out as
+       layout p0 mn p1 u p2 v p3 p4 d p5
+         = p0 ++ mn ++ p1 ++ "." ++ u ++ p2 ++ v ++ p3 ++ ":" ++ p4 ++ d ++ p5
+   where every p_i is a (possibly empty) run of blanks and tabs (padding6).
+     conf_mnem mn : non-empty, no '.', no ':', no leading/trailing white space
+                    (inner blanks allowed);
+     conf_unit u  : no white-space character, does not end with '.', not entirely digits
+                    unless empty (interior dots and colons allowed, may be empty);
+     conf_text x  : x = x.strip() and no newline (may be empty) — value and description;
+     value_set_off p2 v : a non-empty value is separated from the unit by at least one
+                    blank (otherwise the grammar itself cannot tell unit from value).
+   read_header_line line is_curves is_param is the model of
+   lasio.reader.read_header_line(line, section_name=...) : section kinds other than
+   Curves / Parameter (Version, Well, Other, custom titles, None) are (false, false).
+   None models the AttributeError raised when no pattern matches.
+
+   All theorems are about read_header_line itself, i.e. about the regex ASTs generated
+   from /repo on every run (Gen/Regexes.v): the proofs convert the generated ASTs to the
+   literal ASTs they were written for (C04_patterns_current), so a semantic edit of a
+   pattern string in reader.py breaks a proof obligation.
+
+   NOT PROVED (what the full property claims beyond the theorems below):
+   * ~Parameter for arbitrary values: C04_param_time needs every colon of the value to be a
+     clock colon recognised by its look-AHEAD (followed inside the value by [0-5][0-9], mm
+     or MM) and the separating colon set off by a blank on BOTH sides (the quantifier of
+     the property requires this only when the description contains colons).
+     C04_param_no_eligible covers the complementary case "no colon of the line can act as
+     separator" (then the ordinary pattern applies).  Not covered: separator colon
+     eligible but not set off by blanks; colons excused only by the look-BEHIND alternative
+     (" hh:", " 23:" with a non-minute suffix); units containing colons in ~Parameter when
+     the value zone is empty.
+   * ~Curves lines that contain ".." (C04_curves_parse assumes no ".." anywhere in the
+     line, which is stronger than the DESIGN's "v contains no .. and the text before the
+     delimiter does not end in a non-blank followed by .."): the name_with_dots pattern is
+     not analysed.
+   * units that consist only of digits (e.g. "M.1000  v : d"): excluded by conf_unit
+     (the optional digits-blank group of the unit pattern then participates).  The
+     documented form "1000 lbf" is C04_numeric_unit.
+   * lines without a colon (value_without_colon_delimiter), and non-ASCII digits.
+   * the numeric-unit form and the missing-period form inside ~Parameter are proved only
+     for missing-period (C04_missing_period holds in every section kind). *)
+From Coq Require Import List NArith Bool String.
+Import ListNotations.
+Require Import PyStr Regex Regexes HeaderLine HeaderLineSpec HeaderLineProofs.
+Open Scope string_scope. Open Scope N_scope.
+
+(* 0. the generated ASTs are the ones the proofs are about *)
+Theorem C04_patterns_current :
+  rx_name_re = name_lit /\ rx_unit_re = unit_lit /\ rx_value_re = value_lit /\
+  rx_desc_re = desc_lit /\ rx_name_missing_period_re = name_mp_lit /\
+  rx_value_missing_period_re = value_mp_lit /\ rx_no_desc_re = Eps /\ rx_no_unit_re = Eps /\
+  rx_double_dot_search = dd_lit /\ rx_value_with_time_colon_re = tvalue_lit /\
+  time_behind_alts = behind_lit /\ time_ahead_alts = ahead_lit.
+Proof. exact patterns_are_current. Qed.
+
+(* 1. MNEM .UNIT  VALUE : DESCRIPTION under any padding, section kinds other than Curves and
+   Parameter.  The value may contain colons (the LAST colon of the line separates), the
+   unit may contain dots and colons, unit / value / description may be empty; the case
+   where unit, value and third padding are all empty and the unit star has to back off
+   from the separating colon is included. *)
+Theorem C04_main_parse : forall p0 mn p1 u p2 v p3 p4 d p5 : list N,
+  padding6 p0 p1 p2 p3 p4 p5 = true ->
+  conf_mnem mn = true -> conf_unit u = true -> conf_text v = true -> conf_text d = true ->
+  value_set_off p2 v = true ->
+  in_str 58 d = false ->
+  read_header_line (layout p0 mn p1 u p2 v p3 p4 d p5) false false = Some (mkhl mn u v d).
+Proof. exact main_parse. Qed.
+
+(* 2. the same in ~Curves, for lines without ".." *)
+Theorem C04_curves_parse : forall p0 mn p1 u p2 v p3 p4 d p5 : list N,
+  padding6 p0 p1 p2 p3 p4 p5 = true ->
+  conf_mnem mn = true -> conf_unit u = true -> conf_text v = true -> conf_text d = true ->
+  value_set_off p2 v = true ->
+  in_str 58 d = false ->
+  no_double_dot (layout p0 mn p1 u p2 v p3 p4 d p5) = true ->
+  read_header_line (layout p0 mn p1 u p2 v p3 p4 d p5) true false = Some (mkhl mn u v d).
+Proof. exact curves_parse. Qed.
+
+(* 3. a line without a period before its first colon is NAME : VALUE, in every section kind
+   (the value may contain '.' and ':'; in ~Curves the line must not contain "..") *)
+Theorem C04_missing_period : forall (p0 nm p1 p4 v p5 : list N) (is_curves is_param : bool),
+  blanks p0 && blanks p1 && blanks p4 && blanks p5 = true ->
+  conf_name_np nm = true -> conf_text v = true ->
+  (is_curves = true -> no_double_dot (layout_np p0 nm p1 p4 v p5) = true) ->
+  read_header_line (layout_np p0 nm p1 p4 v p5) is_curves is_param = Some (mkhl nm [] v []).
+Proof. exact missing_period. Qed.
+
+(* 4. a numeric unit followed by a single blank keeps its suffix ("1000 lbf"), outside
+   ~Parameter *)
+Theorem C04_numeric_unit :
+  forall (p0 mn p1 ds : list N) (sp : N) (w p2 v p3 p4 d p5 : list N) (is_curves : bool),
+  padding6 p0 p1 p2 p3 p4 p5 = true ->
+  conf_mnem mn = true -> conf_numeric_unit ds sp w = true ->
+  conf_text v = true -> conf_text d = true -> value_set_off p2 v = true ->
+  in_str 58 d = false ->
+  (is_curves = true -> no_double_dot (layout p0 mn p1 (ds ++ [sp] ++ w) p2 v p3 p4 d p5) = true) ->
+  read_header_line (layout p0 mn p1 (ds ++ [sp] ++ w) p2 v p3 p4 d p5) is_curves false
+  = Some (mkhl mn (ds ++ [sp] ++ w) v d).
+Proof. exact numeric_unit. Qed.
+
+(* 5. ~Parameter: clock-time colons in the value are not separators and the description may
+   contain colons, when the separating colon is set off by a blank on both sides *)
+Theorem C04_param_time : forall (p0 mn p1 u p2 v p3 p4 d p5 : list N) (is_curves : bool),
+  padding6 p0 p1 p2 p3 p4 p5 = true ->
+  conf_mnem mn = true -> conf_unit u = true -> conf_text v = true -> conf_text d = true ->
+  value_set_off p2 v = true ->
+  clock_colons v = true ->
+  negb (is_nil p3) && negb (is_nil p4) = true ->
+  (is_curves = true -> no_double_dot (layout p0 mn p1 u p2 v p3 p4 d p5) = true) ->
+  read_header_line (layout p0 mn p1 u p2 v p3 p4 d p5) is_curves true = Some (mkhl mn u v d).
+Proof. exact param_time. Qed.
+
+(* 5'. all 24 hours x 60 minutes of  TIME.  hh:mm 23-JAN-2001 : Time: At Bottom  (a finite
+   sweep evaluated by the kernel; bound stated) *)
+Theorem C04_param_time_sweep : forall h mi : nat, (h < 24)%nat -> (mi < 60)%nat ->
+  read_header_line (time_line h mi) false true = Some (time_expected h mi).
+Proof. exact time_sweep. Qed.
+
+(* ---- non-vacuity: concrete instances satisfying every hypothesis, and the model's result *)
+Definition ex_p0 := [32; 9]. Definition ex_p1 := [32]. Definition ex_p2 := [9; 32].
+Definition ex_p3 := [32; 32]. Definition ex_p4 := [32]. Definition ex_p5 := [9].
+
+Example C04_ex_main_hyps :
+  padding6 ex_p0 ex_p1 ex_p2 ex_p3 ex_p4 ex_p5 = true /\ conf_mnem (s2l "SP GR") = true /\
+  conf_unit (s2l "m.s:x") = true /\ conf_text (s2l "12:30 (a)") = true /\
+  conf_text (s2l "Top ""depth""") = true /\ value_set_off ex_p2 (s2l "12:30 (a)") = true /\
+  in_str 58 (s2l "Top ""depth""") = false /\
+  no_double_dot (layout ex_p0 (s2l "SP GR") ex_p1 (s2l "m.s:x") ex_p2 (s2l "12:30 (a)") ex_p3
+                   ex_p4 (s2l "Top ""depth""") ex_p5) = true.
+Proof. vm_compute. repeat split; reflexivity. Qed.
+Example C04_ex_main :
+  read_header_line (layout ex_p0 (s2l "SP GR") ex_p1 (s2l "m.s:x") ex_p2 (s2l "12:30 (a)") ex_p3
+                      ex_p4 (s2l "Top ""depth""") ex_p5) false false
+  = Some (mkhl (s2l "SP GR") (s2l "m.s:x") (s2l "12:30 (a)") (s2l "Top ""depth""")).
+Proof. vm_compute. reflexivity. Qed.
+Example C04_ex_curves :
+  read_header_line (layout ex_p0 (s2l "SP GR") ex_p1 (s2l "m.s:x") ex_p2 (s2l "12:30 (a)") ex_p3
+                      ex_p4 (s2l "Top ""depth""") ex_p5) true false
+  = Some (mkhl (s2l "SP GR") (s2l "m.s:x") (s2l "12:30 (a)") (s2l "Top ""depth""")).
+Proof. vm_compute. reflexivity. Qed.
+(* everything empty but the mnemonic, no padding at all: "DEPT.:" (the back-off case) *)
+Example C04_ex_empty_hyps :
+  padding6 [] [] [] [] [] [] = true /\ conf_mnem (s2l "DEPT") = true /\ conf_unit [] = true /\
+  conf_text [] = true /\ value_set_off [] [] = true /\ in_str 58 [] = false.
+Proof. vm_compute. repeat split; reflexivity. Qed.
+Example C04_ex_empty :
+  read_header_line (layout [] (s2l "DEPT") [] [] [] [] [] [] [] []) false false
+  = Some (mkhl (s2l "DEPT") [] [] []).
+Proof. vm_compute. reflexivity. Qed.
+(* unit with a colon directly against the separator: "M.a:b:desc" *)
+Example C04_ex_backoff :
+  conf_unit (s2l "a:b") = true /\
+  read_header_line (layout [] (s2l "M") [] (s2l "a:b") [] [] [] [] (s2l "desc") []) false false
+  = Some (mkhl (s2l "M") (s2l "a:b") [] (s2l "desc")).
+Proof. vm_compute. split; reflexivity. Qed.
+
+Example C04_ex_np_hyps :
+  blanks ex_p0 && blanks ex_p1 && blanks ex_p4 && blanks ex_p5 = true /\
+  conf_name_np (s2l "WELL NAME") = true /\ conf_text (s2l "A.1: x") = true /\
+  no_double_dot (layout_np ex_p0 (s2l "WELL NAME") ex_p1 ex_p4 (s2l "A.1: x") ex_p5) = true.
+Proof. vm_compute. repeat split; reflexivity. Qed.
+Example C04_ex_np :
+  read_header_line (layout_np ex_p0 (s2l "WELL NAME") ex_p1 ex_p4 (s2l "A.1: x") ex_p5) false true
+  = Some (mkhl (s2l "WELL NAME") [] (s2l "A.1: x") []).
+Proof. vm_compute. reflexivity. Qed.
+
+Example C04_ex_num_hyps :
+  conf_numeric_unit (s2l "1000") 32 (s2l "lbf") = true /\ conf_text [] = true /\
+  value_set_off [] [] = true /\ padding6 [] ex_p1 [] ex_p3 ex_p4 [] = true.
+Proof. vm_compute. repeat split; reflexivity. Qed.
+Example C04_ex_num :
+  read_header_line (layout [] (s2l "TENS") ex_p1 (s2l "1000" ++ [32] ++ s2l "lbf") [] [] ex_p3
+                      ex_p4 (s2l "Tension") []) false false
+  = Some (mkhl (s2l "TENS") (s2l "1000 lbf") [] (s2l "Tension")).
+Proof. vm_compute. reflexivity. Qed.
+
+Example C04_ex_time_hyps :
+  conf_text (s2l "13:45:07 23-JAN-2001") = true /\ clock_colons (s2l "13:45:07 23-JAN-2001") = true /\
+  value_set_off ex_p2 (s2l "13:45:07 23-JAN-2001") = true /\
+  negb (is_nil ex_p3) && negb (is_nil ex_p4) = true /\ conf_text (s2l "Time: At Bottom") = true /\
+  conf_unit [] = true.
+Proof. vm_compute. repeat split; reflexivity. Qed.
+Example C04_ex_time :
+  read_header_line (layout ex_p0 (s2l "TIME") ex_p1 [] ex_p2 (s2l "13:45:07 23-JAN-2001") ex_p3
+                      ex_p4 (s2l "Time: At Bottom") ex_p5) false true
+  = Some (mkhl (s2l "TIME") [] (s2l "13:45:07 23-JAN-2001") (s2l "Time: At Bottom")).
+Proof. vm_compute. reflexivity. Qed.
+Example C04_ex_sweep_line : l2s (time_line 7 5) = "TIME.  07:05 23-JAN-2001 : Time: At Bottom".
+Proof. vm_compute. reflexivity. Qed.
+
+Print Assumptions C04_patterns_current.
+Print Assumptions C04_main_parse.
+Print Assumptions C04_curves_parse.
+Print Assumptions C04_missing_period.
+Print Assumptions C04_numeric_unit.
+Print Assumptions C04_param_time.
+Print Assumptions C04_param_time_sweep.
